@@ -210,3 +210,8 @@ def monitor_stream(tier="quick", seed=0):
 from pyvc.native import native_monitor  # noqa: E402
 
 EXTRA_CHECKS = [native_monitor("C18", "contracts.c18", "monitor_stream", "text-channel", "100 report sets built from 24 hostile values, 3 (5) noise chunks, with / without trailing newline")]
+
+
+from pyvc.native import native_monitor  # noqa: E402
+
+EXTRA_CHECKS = (list(EXTRA_CHECKS) if 'EXTRA_CHECKS' in globals() else []) + [native_monitor("C18", "contracts.c18_native", "monitor_backend_stream", "backend-stream", "12 (24) real LocalBackend subprocess trials with block-buffered stdout and 744 (4059) in-process scenarios through LocalBackend's own parsing: reports interleaved with output without trailing newline, direct writes to fd 1, child processes, 8-45 KB reports, os._exit and kill, hostile values; polls at quiescent points")]
